@@ -269,11 +269,21 @@ QFriis(k) ==
   /\ Live /\ Exact /\ Model = "freespace" /\ n = R(2) /\ FSign(Det(k, 0)) = 1 /\ UNCHANGED vars
   /\ E(QRec("Friis", k, 0, [t |-> "val", f |-> Det(k, 0), tol |-> D(1, 100)]))
 
+\* Okumura-Hata 'large city': a(hms) = 3.2 (log10(11.75 hms))^2 - 4.97 above 300 MHz, 8.29 (log10(1.54 hms))^2 - 1.10
+\* below - irrational in another constant, so the specification contributes the exact rest of the formula at
+\* d = 1 km, the branch that applies and hms; the harness evaluates a(hms) from the documented formula (rel)
+LargeCity ==
+  IF Model = "hata" /\ area = "large city" /\ FcOnLat(fc) /\ hbs = R(100)
+    THEN [on |-> TRUE, hms |-> hms, above300 |-> LLt(R(300), FcVal(fc)),
+          base |-> FSub(FAdd(FC(D(6955, 100)), FScale(D(2616, 100), LogFc(fc))), FC(LMul(D(1382, 100), R(2))))]
+    ELSE [on |-> FALSE]
+
 \* relation-only laws, evaluated numerically by the harness in EVERY live state (rel)
 QRel ==
   /\ Live /\ UNCHANGED vars
   /\ E([kind |-> "q", op |-> "Rel", pre |-> P, post |-> P, exact |-> Exact,
         slope |-> [w \in WallsOf \ {-1} |-> Slope(w)],
+        lc |-> LargeCity,
         req |-> {"Monotone", "LinearIsDb", "InUnit", "PolicyArrayScalar"}
                   \cup (IF InvOffered THEN {"InverseId"} ELSE {})])
 
